@@ -42,6 +42,8 @@ RULE = (
     "ets it came from)."
     " A poller re-reads the same 30 objects eight times while their values change (same respo"
     "nse length and layout, earlier datagrams collected)."
+    " 20000 (thorough 80000) response PDUs decoded one after the other in one process and com"
+    "pared with their octets."
 )
 ASSUMPTIONS = [
     "well-formed = what vf.ber's strict decoder accepts (definite lengths, <= 4 length octets)",
